@@ -233,6 +233,10 @@ def judge(s, sink):
                 v.append(('statement-discarded:' + why, 'an assignment (code with an effect) for ' + x.name, x.code[:120],
                           'an accepted equation is not translated to an assignment of its left-hand side'))
                 break
+    if set(vars(fsic.parser)) - g_before:
+        v.append(('side-effect:globals:build', [], sorted(set(vars(fsic.parser)) - g_before), 'building left names in the parser module'))
+        for k in set(vars(fsic.parser)) - g_before:
+            del vars(fsic.parser)[k]
     if _module_state() != m_before:
         v.append(('side-effect:module-state:build', m_before, _module_state(), 'building changed a module-level table of the parser'))
         _restore_module_state()
